@@ -70,7 +70,7 @@ theorem digitStr_contains_at (w : Text) (hw : DigitStr w) : w.contains '@' = fal
     have hc := hw c (by simp)
     have h1 : c ≠ '@' := by intro h; subst h; simp [isDigit] at hc
     have := ih (fun x hx => hw x (by simp [hx]))
-    simp [List.contains_cons] at this ⊢
+    simp at this ⊢
     exact ⟨fun h => h1 h.symm, this⟩
 
 theorem signIdxs_digitStr (w : Text) (hw : DigitStr w) : ∀ i acc, signIdxs i acc w = some acc.reverse := by
@@ -81,7 +81,8 @@ theorem signIdxs_digitStr (w : Text) (hw : DigitStr w) : ∀ i acc, signIdxs i a
     have hc := hw c (by simp)
     have h1 : (c == '+' || c == '-') = false := by digit_cases hc
     have h2 : (c == 'e' || c == 'E') = false := by digit_cases hc
-    simp only [signIdxs, h1, h2]
+    rw [signIdxs.eq_def]
+    simp only [h1, h2]
     exact ih (fun x hx => hw x (by simp [hx])) _ _
 
 theorem scanReal_digitStr (radix : Nat) (w : Text) (hw : DigitStr w) : ∀ i st, scanReal radix i st w = st := by
